@@ -81,7 +81,15 @@ func (m *machine) intrinsic(name string, fn *ssa.Function, args []value, pos tok
 		if m.inInit {
 			break
 		}
-		if m.enumerate(0, 1) == 0 {
+		var content []iv
+		hasContent := false
+		if name, ok := args[0].(string); ok {
+			if c, ok := m.fileContents[name]; ok {
+				content, hasContent = strBytes(c), true
+			}
+		}
+		// a file whose content the harness registered (vFileContent) opens; any other open may fail or succeed
+		if !hasContent && m.enumerate(0, 1) == 0 {
 			return tup{(*value)(nil), m.mkError("open: no such file or directory")}, true
 		}
 		p := new(value)
@@ -90,6 +98,10 @@ func (m *machine) intrinsic(name string, fn *ssa.Function, args []value, pos tok
 			m.openFiles = map[*value]bool{}
 		}
 		m.openFiles[p] = true
+		if m.fileState == nil {
+			m.fileState = map[*value]*fileState{}
+		}
+		m.fileState[p] = &fileState{content: content}
 		return tup{p, iface{}}, true
 	case "(*os.File).Close":
 		p, _ := args[0].(*value)
@@ -101,6 +113,72 @@ func (m *machine) intrinsic(name string, fn *ssa.Function, args []value, pos tok
 			return iface{}, true
 		}
 		return m.mkError("close: file already closed"), true
+	case "(*os.File).Stat", "(*os.File).Seek", "(*os.File).Read", "(*os.File).ReadAt":
+		// file content model (environment stub): an open handle reads the bytes the harness registered for
+		// its name; positions and sizes are concrete
+		p, _ := args[0].(*value)
+		fs := m.fileState[p]
+		if p == nil || fs == nil || !m.openFiles[p] {
+			if short == "Stat" {
+				return tup{iface{}, m.mkError("file already closed")}, true
+			}
+			return tup{mkInt(0), m.mkError("file already closed")}, true
+		}
+		m.st.fnSeen["model:os.File content supplied by the harness (vFileContent): Stat/Seek/Read/ReadAt/Close"] = true
+		switch short {
+		case "Stat":
+			return tup{m.mkFileInfo(int64(len(fs.content))), iface{}}, true
+		case "Seek":
+			off, wh := args[1].(iv), args[2].(iv)
+			if off.sym() || wh.sym() {
+				panic(abortPath{"unsupported:symbolic file offset"})
+			}
+			var np int64
+			switch wh.int64() {
+			case 0:
+				np = off.int64()
+			case 1:
+				np = int64(fs.pos) + off.int64()
+			case 2:
+				np = int64(len(fs.content)) + off.int64()
+			default:
+				return tup{mkInt(0), m.mkError("seek: invalid argument")}, true
+			}
+			if np < 0 {
+				return tup{mkInt(0), m.mkError("seek: invalid argument")}, true
+			}
+			fs.pos = int(np)
+			return tup{mkInt(np), iface{}}, true
+		case "Read", "ReadAt":
+			buf := args[1].(slc)
+			pos := fs.pos
+			if short == "ReadAt" {
+				o := args[2].(iv)
+				if o.sym() {
+					panic(abortPath{"unsupported:symbolic file offset"})
+				}
+				pos = int(o.int64())
+			}
+			if buf.ln == 0 {
+				return tup{mkInt(0), iface{}}, true
+			}
+			if pos >= len(fs.content) {
+				return tup{mkInt(0), m.ioEOF()}, true
+			}
+			n := len(fs.content) - pos
+			if n > buf.ln {
+				n = buf.ln
+			}
+			for i := 0; i < n; i++ {
+				m.writeElem(&(*buf.arr)[buf.off+i], fs.content[pos+i], token.NoPos)
+			}
+			if short == "Read" {
+				fs.pos += n
+			} else if n < buf.ln {
+				return tup{mkInt(int64(n)), m.ioEOF()}, true
+			}
+			return tup{mkInt(int64(n)), iface{}}, true
+		}
 	case "(*archive/zip.File).Open":
 		// zip content model (environment stub): a member's content is what the harness registered for its
 		// name with vZipContent; decompression, CRC and the central directory are outside the claim
@@ -626,6 +704,16 @@ func (m *machine) harnessRT(short string, fn *ssa.Function, args []value, pos to
 		return nil, true
 	case "vIsSymbolic":
 		return bv{c: true}, true
+	case "vFileContent":
+		if m.fileContents == nil {
+			m.fileContents = map[string]value{}
+		}
+		name, ok := args[0].(string)
+		if !ok {
+			panic(abortPath{"unsupported:vFileContent with symbolic name"})
+		}
+		m.fileContents[name] = args[1]
+		return nil, true
 	case "vZipContent":
 		if m.zipContents == nil {
 			m.zipContents = map[string]value{}
@@ -1030,4 +1118,44 @@ func fromHost(o reflect.Value) value {
 		return slc{arr: &arr, ln: len(arr), cp: len(arr)}
 	}
 	panic(abortPath{"unsupported:host result kind " + o.Kind().String()})
+}
+
+type fileState struct {
+	content []iv
+	pos     int
+}
+
+// ioEOF returns the io.EOF error value (the package variable itself, so comparisons by identity hold).
+func (m *machine) ioEOF() value {
+	for _, p := range m.prog.AllPackages() {
+		if p.Pkg.Path() == "io" {
+			if g, ok := p.Members["EOF"].(*ssa.Global); ok {
+				return *m.global(g)
+			}
+		}
+	}
+	panic(abortPath{"internal:io.EOF not found"})
+}
+
+// mkFileInfo builds an *os.fileStat (the real type, so its interpreted methods work) with the given size.
+func (m *machine) mkFileInfo(size int64) value {
+	for _, p := range m.prog.AllPackages() {
+		if p.Pkg.Path() == "os" {
+			t, ok := p.Members["fileStat"].(*ssa.Type)
+			if !ok {
+				break
+			}
+			st := t.Type().Underlying().(*types.Struct)
+			v := zero(t.Type()).(agg)
+			for i := 0; i < st.NumFields(); i++ {
+				if st.Field(i).Name() == "size" {
+					v[i] = mkInt(size)
+				}
+			}
+			cell := new(value)
+			*cell = v
+			return iface{t: types.NewPointer(t.Type()), v: cell}
+		}
+	}
+	panic(abortPath{"internal:os.fileStat not found"})
 }
